@@ -62,11 +62,11 @@ def bounds(tier):
   q = tier == 'quick'
   return dict(
       scales=list(ru.SCALE_NAMES),
-      units='m^a s^b kg^c K^d, exponents -2..2 (625) + Pa, hPa, J/kg/K, W/m^2, km/h',
+      units='m^a s^b kg^c K^d, exponents -2..2 (625) + Pa, hPa, J/kg/K, W/m^2, km/h + dimensionless units with a factor: g/kg, percent, ppm, year/day',
       magnitudes='amp * 10^k, k=-12..12, amp from the seed palette (quick) / all palettes (thorough), and 0',
       forms=['float', 'int (when integral)', 'numpy float64 array', 'jax float64 array'],
       powers=list(POWERS),
-      pair_laws='ordered pairs (every unit) x (%s)' % ('units with exponents in -1..1 + named (86)' if q else 'every unit (630)'),
+      pair_laws='ordered pairs (every unit) x (%s)' % ('units with exponents in -1..1 + named (90)' if q else 'every unit (634)'),
       durations_scalar='every whole second 0..86400, 5 scales' + ('' if q else ' and -86400..0; minutes 0..1440, hours 0..240, ms 0..3600000 step 1000'),
       durations_array=('0..86400 and -86400..0' if q else '-86400..0 and 0..10^7') + ', stride 1, %d per array call' % ARRAY_CALL,
       datetimes='every minute 1979-01-01..1980-02-29 (612000, one day per array call) + every 97th minute over 50 years '
